@@ -19,6 +19,7 @@ import (
 	"strconv"
 	"strings"
 	"sync"
+	"sync/atomic"
 	"time"
 
 	go9p "github.com/rminnich/go9p"
@@ -104,6 +105,7 @@ type concAction struct {
 	errText string // answer with Rerror instead
 	async   bool   // answer from another goroutine after the op returned
 	flushOK bool   // (FlushOp) call target.Flush()
+	par     bool   // the packed reply is answered by two goroutines at the same moment
 }
 
 func (s *concSession) emitL(format string, a ...interface{}) {
@@ -126,6 +128,23 @@ func kindStr(fc *go9p.Fcall) string {
 
 // hook: called by the library at its schedule points
 func (s *concSession) hook(point string, obj interface{}, a, b uint32) {
+	s.hookLocked(point, obj, a, b)
+	// two goroutines answering one request at the same moment leave respond.enter together
+	if point == "respond.enter" {
+		if r, ok := obj.(*go9p.SrvReq); ok {
+			if v, ok := parBarrier.Load(r); ok {
+				c := v.(*int32)
+				atomic.AddInt32(c, 1)
+				for i := 0; atomic.LoadInt32(c) < 2 && i < 2000000; i++ {
+				}
+			}
+		}
+	}
+}
+
+var parBarrier sync.Map // *SrvReq -> *int32
+
+func (s *concSession) hookLocked(point string, obj interface{}, a, b uint32) {
 	g := gid()
 	s.mu.Lock()
 	defer s.mu.Unlock()
@@ -303,9 +322,55 @@ func (o *concOps) reqOf(req *go9p.SrvReq) *concReq {
 	return o.s.reqInfo[id]
 }
 
+// packs the reply without responding (the exported PackR* functions)
+func packAnswer(req *go9p.SrvReq, payload []byte) bool {
+	switch req.Tc.Type {
+	case go9p.Tstat:
+		d := go9p.Dir{Name: string(payload)}
+		return go9p.PackRstat(req.Rc, &d, req.Conn.Dotu) == nil
+	case go9p.Tread:
+		return go9p.PackRread(req.Rc, payload) == nil
+	}
+	return false
+}
+
+// two goroutines answer the same, already packed request at the same moment (a worker and a
+// watchdog, say): exactly one of the two Respond calls may win
+func (o *concOps) answerPar(req *go9p.SrvReq) {
+	s := o.s
+	var wg sync.WaitGroup
+	var ready int32
+	parBarrier.Store(req, new(int32))
+	defer parBarrier.Delete(req)
+	for i := 0; i < 2; i++ {
+		wg.Add(1)
+		go func() {
+			defer wg.Done()
+			g := gid()
+			s.mu.Lock()
+			s.answering[g] = true
+			id := s.rid[req]
+			s.reqInfo[id].answers++
+			s.mu.Unlock()
+			atomic.AddInt32(&ready, 1)
+			for atomic.LoadInt32(&ready) < 2 {
+			}
+			req.Respond()
+			s.mu.Lock()
+			delete(s.answering, g)
+			s.mu.Unlock()
+		}()
+	}
+	wg.Wait()
+}
+
 func (o *concOps) answer(req *go9p.SrvReq, act concAction) {
 	g := gid()
 	s := o.s
+	if act.par && packAnswer(req, act.payload) {
+		o.answerPar(req)
+		return
+	}
 	for i := 0; i < act.answers; i++ {
 		// mark this goroutine as "the implementation answering": the label AN is
 		// logged at respond.enter (after the pack), nothing if the answer came late
@@ -640,6 +705,9 @@ func concPerm(maxpend int, flushop bool, k int, dup bool) string {
 		if dup && rng.Intn(2) == 0 {
 			act.answers = 2 // same content twice
 		}
+		if dup && rng.Intn(3) == 0 {
+			act.par, act.answers = true, 1
+		}
 		if rng.Intn(4) == 0 {
 			act.errText = fmt.Sprintf("err-%d", i)
 		}
@@ -884,12 +952,13 @@ func concFlushQueued(maxpend int, flushop bool, tk int) string {
 	s.setup()
 	nf := uint32(10)
 	// warm-up: replies of the target's type go through the recycled buffers
+	// (in flight together, so that several distinct buffers end up in the recycling pool)
 	for i := 0; i < 3; i++ {
 		s.send(typedReq(tk, uint16(600+i), 0, nf))
 		nf++
-		s.releaseRange(uint16(600+i), uint16(601+i), 1, "w")
-		s.waitReplies(3+i, 2*time.Second)
 	}
+	s.releaseRange(600, 603, 3, "w")
+	s.waitReplies(5, 2*time.Second)
 	const tt, ft = 700, 701
 	flushed := map[uint16]bool{tt: true}
 	flushCancelTags.Store(uint16(tt), true)
